@@ -1057,8 +1057,8 @@ def translate_rule_parser(src):
             and not fn.args.vararg and not fn.args.kwonlyargs and not fn.args.defaults):
         raise Untranslatable("_rrulestr.__call__ is not `return self._parse_rfc(s, **kwargs)`")
     out.append("/-- translated from `_rrulestr.__call__` (whole method): `return self._parse_rfc(s, **kwargs)` — the text and every keyword\n"
-               "    argument handed on unchanged, nothing else done (`_parse_rfc` itself: `rrsPrefix` + the hand model `RRuleStr.parseRfc`) -/\n"
-               "def rrsCall (s : StrPy.Str) (o : RRuleStr.Opts) (dtstartKw : Bool) : Py.R RRuleStr.Parsed :=\n  RRuleStr.parseRfc s o dtstartKw\n")
+               "    argument handed on unchanged, nothing else done -/\n"
+               "def rrsCall (s : StrPy.Str) (o : RRuleStr.Opts) (dtstartKw : Bool) : Py.R RRuleStr.Parsed :=\n  rrsParseRfc s o dtstartKw\n")
     fps["_rrulestr.__call__"] = fingerprint([fn])
     return "\n".join(out), fps
 
@@ -1158,6 +1158,111 @@ def translate_dispatch(rfc, k):
             "  %s\n  else .error .%s\n" % (lean_char(colon), dflt, dflt, lean_char(semi), exc3, chain, last))
     return text, {"_rrulestr._parse_rfc[dispatch]": fingerprint([f])}
 
+# _rrulestr._parse_rfc: everything after the unfold block EXCEPT the dispatch loop body (the single-line fast path, the decision for a
+# set, the set building, the single-rule exit) -> Gen.rrsTail; with rrsPrefix and rrsStepLine: Gen.rrsParseRfc, the whole method.
+# A call `self._parse_rfc_rrule(v, dtstart=dtstart, [cache=cache,] ignoretz=ignoretz, tzinfos=tzinfos)` is `rrsParseRule po v` (the
+# keyword arguments; the start and the cache flag are recorded beside them), `parser.parse(datestr, ignoretz=…, tzinfos=…)` of an RDATE
+# value is kept as the text and the options (C02), `rruleset(cache=cache)` with its `rrule / rdate / exrule / exdate` calls is `Parsed.set`.
+
+def translate_tail(rfc, k):
+    def cname(n): return getattr(n, "id", None)
+    top = rfc.body[k + 1]
+    def rule_call(n, first, with_cache):
+        want = {"dtstart": "dtstart", "ignoretz": "ignoretz", "tzinfos": "tzinfos"}
+        if with_cache: want["cache"] = "cache"
+        return (isinstance(n, ast.Call) and isinstance(n.func, ast.Attribute) and n.func.attr == "_parse_rfc_rrule" and cname(n.func.value) == "self"
+                and len(n.args) == 1 and first(n.args[0]) and {kw.arg: cname(kw.value) for kw in n.keywords} == want)
+    def idx0(name): return lambda a: isinstance(a, ast.Subscript) and cname(a.value) == name and isinstance(a.slice, ast.Constant) and a.slice.value == 0
+    def is_name(name): return lambda a: cname(a) == name
+    # fast path
+    t = top.test
+    ok = (isinstance(t, ast.BoolOp) and isinstance(t.op, ast.And) and len(t.values) == 3
+          and isinstance(t.values[0], ast.UnaryOp) and isinstance(t.values[0].op, ast.Not) and cname(t.values[0].operand) == "forceset"
+          and isinstance(t.values[1], ast.Compare) and cname(t.values[1].left.func) == "len" and cname(t.values[1].left.args[0]) == "lines"
+          and isinstance(t.values[1].ops[0], ast.Eq) and t.values[1].comparators[0].value == 1
+          and isinstance(t.values[2], ast.BoolOp) and isinstance(t.values[2].op, ast.Or) and len(t.values[2].values) == 2)
+    if not ok: raise Untranslatable("_parse_rfc: fast-path test")
+    o1, o2 = t.values[2].values
+    if not (isinstance(o1, ast.Compare) and o1.left.func.attr == "find" and cname(o1.left.func.value) == "s" and isinstance(o1.ops[0], ast.Eq)
+            and isinstance(o1.comparators[0], ast.UnaryOp) and o1.comparators[0].operand.value == 1 and len(o1.left.args[0].value) == 1
+            and isinstance(o2, ast.Call) and o2.func.attr == "startswith" and cname(o2.func.value) == "s" and isinstance(o2.args[0], ast.Constant)):
+        raise Untranslatable("_parse_rfc: fast-path test (text part)")
+    if not (len(top.body) == 1 and isinstance(top.body[0], ast.Return) and rule_call(top.body[0].value, idx0("lines"), True)):
+        raise Untranslatable("_parse_rfc: fast-path return")
+    fast = "!forceset && lines.length == 1 && (!s.contains %s || RRuleStr.startsWith s (RRuleStr.lit \"%s\"))" % (lean_char(o1.left.args[0].value), o2.args[0].value)
+    els = top.orelse
+    if not (len(els) == 6 and isinstance(els[5], ast.If)): raise Untranslatable("_parse_rfc: multi-line branch")
+    dec = els[5]
+    # the decision for a set
+    def term(n):
+        if cname(n) == "forceset": return "forceset"
+        if cname(n) in ("rrulevals", "rdatevals", "exrulevals", "exdatevals"): return "!acc.%s.isEmpty" % n.id
+        if isinstance(n, ast.Compare) and cname(n.left.func) == "len" and cname(n.left.args[0]) in ("rrulevals", "rdatevals", "exrulevals", "exdatevals") \
+           and isinstance(n.ops[0], ast.Gt) and isinstance(n.comparators[0], ast.Constant):
+            return "acc.%s.length > %d" % (n.left.args[0].id, n.comparators[0].value)
+        raise Untranslatable("_parse_rfc: term of the set decision")
+    if not (isinstance(dec.test, ast.BoolOp) and isinstance(dec.test.op, ast.Or)): raise Untranslatable("_parse_rfc: set decision")
+    wants = " || ".join(term(v) for v in dec.test.values)
+    # set building
+    sb = [st for st in dec.body if not (isinstance(st, ast.If) and not st.orelse and all(isinstance(x, (ast.Import, ast.ImportFrom)) for x in st.body))]
+    def adder(st, lst, meth, argcheck):
+        return (isinstance(st, ast.For) and cname(st.target) == "value" and cname(st.iter) == lst and not st.orelse and len(st.body) == 1
+                and isinstance(st.body[0], ast.Expr) and isinstance(st.body[0].value, ast.Call) and st.body[0].value.func.attr == meth
+                and cname(st.body[0].value.func.value) == "rset" and len(st.body[0].value.args) == 1 and argcheck(st.body[0].value.args[0]))
+    okb = (len(sb) == 7 and isinstance(sb[0], ast.Assign) and cname(sb[0].targets[0]) == "rset" and cname(sb[0].value.func) == "rruleset"
+           and {kw.arg: cname(kw.value) for kw in sb[0].value.keywords} == {"cache": "cache"} and not sb[0].value.args
+           and adder(sb[1], "rrulevals", "rrule", lambda a: rule_call(a, is_name("value"), False))
+           and adder(sb[3], "exrulevals", "exrule", lambda a: rule_call(a, is_name("value"), False))
+           and adder(sb[4], "exdatevals", "exdate", is_name("value"))
+           and isinstance(sb[6], ast.Return) and cname(sb[6].value) == "rset")
+    if not okb: raise Untranslatable("_parse_rfc: set building")
+    rd = sb[2]
+    okr = (isinstance(rd, ast.For) and cname(rd.target) == "value" and cname(rd.iter) == "rdatevals" and len(rd.body) == 1 and isinstance(rd.body[0], ast.For)
+           and cname(rd.body[0].target) == "datestr" and rd.body[0].iter.func.attr == "split" and cname(rd.body[0].iter.func.value) == "value"
+           and len(rd.body[0].iter.args) == 1 and len(rd.body[0].body) == 2 and isinstance(rd.body[0].body[0], ast.Try))
+    if not okr: raise Untranslatable("_parse_rfc: RDATE loop")
+    tr_, add_ = rd.body[0].body
+    pc = tr_.body[0].value
+    if not (cname(tr_.body[0].targets[0]) == "rdate" and pc.func.attr == "parse" and cname(pc.func.value) == "parser" and [cname(a) for a in pc.args] == ["datestr"]
+            and {kw.arg: cname(kw.value) for kw in pc.keywords} == {"ignoretz": "ignoretz", "tzinfos": "tzinfos"}
+            and len(tr_.handlers) == 1 and cname(tr_.handlers[0].type) == "OverflowError" and cname(tr_.handlers[0].body[0].exc.func) == "ValueError"
+            and isinstance(add_, ast.Expr) and add_.value.func.attr == "rdate" and cname(add_.value.func.value) == "rset" and [cname(a) for a in add_.value.args] == ["rdate"]):
+        raise Untranslatable("_parse_rfc: RDATE value")
+    rsep = rd.body[0].iter.args[0].value
+    cd = sb[5]
+    if not (isinstance(cd, ast.If) and isinstance(cd.test, ast.BoolOp) and isinstance(cd.test.op, ast.And) and [cname(v) for v in cd.test.values] == ["compatible", "dtstart"]
+            and not cd.orelse and len(cd.body) == 1 and cd.body[0].value.func.attr == "rdate" and [cname(a) for a in cd.body[0].value.args] == ["dtstart"]):
+        raise Untranslatable("_parse_rfc: compatible DTSTART")
+    # single rule exit
+    se = dec.orelse
+    if not (len(se) == 2 and isinstance(se[0], ast.If) and isinstance(se[0].test, ast.UnaryOp) and cname(se[0].test.operand) == "rrulevals"
+            and isinstance(se[0].body[0], ast.Raise) and isinstance(se[1], ast.Return) and rule_call(se[1].value, idx0("rrulevals"), True)):
+        raise Untranslatable("_parse_rfc: single-rule exit")
+    exc = se[0].body[0].exc.func.id
+    text = ("/-- translated from `rrule.py:_rrulestr._parse_rfc`: everything after the unfold block — the single-line fast path, the dispatch loop\n"
+            "    (`rrsStepLine`), the decision for a set, the set building (`rruleset(cache=cache)`, its rrules / rdates / exrules / exdates, the\n"
+            "    `compatible` DTSTART), the single-rule exit.  `dtstartKw` = whether a `dtstart=` argument was passed (its truth value) -/\n"
+            "def rrsTail (po : RRuleStr.ParseOpts) (cache : Bool) (s : StrPy.Str) (lines : List StrPy.Str) (forceset compatible dtstartKw : Bool) :\n"
+            "    Py.R RRuleStr.Parsed :=\n"
+            "  if %s then\n"
+            "    (rrsParseRule po (lines.headD [])) >>= fun a => .ok (.rule a none cache)\n"
+            "  else\n"
+            "    (lines.foldlM (rrsStepLine po) {}) >>= fun acc =>\n"
+            "    if %s then\n"
+            "      (acc.rrulevals.mapM (rrsParseRule po)) >>= fun rr =>\n"
+            "      (acc.exrulevals.mapM (rrsParseRule po)) >>= fun ex =>\n"
+            "      let rdates := ((acc.rdatevals.map (ICal.splitOnChar %s)).flatten).map (fun d => (d, po))\n"
+            "      .ok (.set rr ex rdates acc.exdatevals acc.dtstart (compatible && (acc.dtstart.isSome || dtstartKw)) cache)\n"
+            "    else\n"
+            "      match acc.rrulevals with\n"
+            "      | v :: _ => (rrsParseRule po v) >>= fun a => .ok (.rule a acc.dtstart cache)\n"
+            "      | [] => .error .%s\n\n"
+            "/-- `_rrulestr._parse_rfc` (WHOLE method): the translated prefix followed by the translated rest -/\n"
+            "def rrsParseRfc (s0 : StrPy.Str) (o : RRuleStr.Opts) (dtstartKw : Bool) : Py.R RRuleStr.Parsed :=\n"
+            "  (rrsPrefix s0 o.unfold o.forceset o.compatible) >>= fun (forceset, unfold, TZID_NAMES, s, lines) =>\n"
+            "  rrsTail o.po o.cache s lines forceset o.compatible dtstartKw\n" % (fast, wants, lean_char(rsep), exc))
+    return text, {"_rrulestr._parse_rfc": fingerprint([rfc])}
+
 def translate_all(src):
     loc = locate(src)
     out, fps = [], {}
@@ -1233,7 +1338,12 @@ def translate_all(src):
     text, fp = translate_rrule_str(src)
     out.append(text); fps.update(fp)
     text, fp = translate_rule_parser(src)
-    out.append(text); fps.update(fp)
+    # __call__ refers to rrsParseRfc: emit the tail of _parse_rfc before it
+    ttext, tfp = translate_tail(rfc, kk)
+    cut = text.index("/-- translated from `_rrulestr.__call__`")
+    text = text[:cut] + ttext + "\n" + text[cut:]
+    out.append(text); fps.update(fp); fps.update(tfp)
+    fps.pop("_rrulestr._parse_rfc[prefix]", None); fps.pop("_rrulestr._parse_rfc[dispatch]", None)      # the whole method now
     return "\n".join(out), fps
 
 if __name__ == "__main__":
